@@ -21,5 +21,9 @@ TEXT = {
     "C07": {"engine": "E1+E2", "design_ref": "4/C07", "technique": "runtime monitoring: ill-formed call injection with before/after state snapshots",
             "level": "Held on every injected ill-formed call (10 classes x 9 store kinds x random reachable states): RuntimeError raised, observable state unchanged.",
             "note": _STORE_NOTE},
+    "C14": {"engine": "E5+E1", "design_ref": "4/C14", "technique": "runtime monitoring: offline checker over recorded load/availability events (batch membership, capacity trigger, round-trip bounds)",
+            "level": "Held on every monitored fleet history: F1 (2*transit <= availability - load <= delay + 2*transit), F2 (no departure leaves a waiting item behind), "
+                     "F3 (capacity instant => everything waiting arrives exactly one round trip later), F5 (timer departures >= one delay after the previous departure); loading order via the C06 FIFO monitor.",
+            "note": _STORE_NOTE + " The timer phase is not fixed by the oracle (both readings accepted)."},
 }
 NOT_APPLICABLE = {}
